@@ -426,7 +426,7 @@ func (s *sys) fail(fp, what string) {
 		s.fp, s.what = fp, what
 	}
 	classMu.Lock()
-	if h, ok := classes[fp]; !ok || len(s.hist) < len(h) {
+	if h, ok := classes[fp]; !ok || len(s.hist) < len(h) || (len(s.hist) == len(h) && strings.Join(s.hist, ";") < strings.Join(h, ";")) {
 		classes[fp] = append([]string(nil), s.hist...)
 	}
 	classMu.Unlock()
